@@ -40,7 +40,20 @@ type sgen struct {
 	actions  map[string][]string
 }
 
-func (g *sgen) odd(label string) bool { return g.o.OddPct > 0 && gen.Chance(g.t, g.o.OddPct, label) }
+// Rare is a low-probability coin. rapid draws small integers far more often than uniformly (its bit-length bias), so a
+// plain "value < pct" test fires several times too often for small pct; the test uses a band in the upper half of a
+// 7-bit range instead, which is only reached by unbiased full-width draws (about half of all draws). Shrinking moves
+// the value towards 0, i.e. towards "feature off".
+func Rare(t *rapid.T, pct int, label string) bool {
+	w := pct * 26 / 10
+	if w > 63 {
+		w = 63
+	}
+	v := rapid.IntRange(0, 127).Draw(t, label)
+	return v >= 64 && v < 64+w
+}
+
+func (g *sgen) odd(label string) bool { return g.o.OddPct > 0 && Rare(g.t, g.o.OddPct, label) }
 
 func (g *sgen) anns() []Ann {
 	t := g.t
@@ -81,7 +94,7 @@ func (g *sgen) refTo(ns, q string) string {
 	if q[:i] == ns && gen.Chance(g.t, 60, "unqual") {
 		return q[i+2:]
 	}
-	if gen.Chance(g.t, 5, "basename") {
+	if Rare(g.t, 5, "basename") {
 		return q[i+2:] // basename from another namespace: usually undefined or resolves elsewhere
 	}
 	return q
@@ -153,7 +166,7 @@ func (g *sgen) attrs(ns string, depth, maxN int) []Attr {
 	var out []Attr
 	for i := 0; i < n; i++ {
 		name := gen.Pick(t, attrPool, "attr")
-		if gen.Chance(t, 4, "uniattr") {
+		if Rare(t, 4, "uniattr") {
 			name = gen.UnicodeString(t, 0, 4)
 		}
 		dup := false
@@ -203,7 +216,7 @@ func GenSchema(t *rapid.T, o GenOpts) *Schema {
 		ne := rapid.IntRange(0, 3).Draw(t, "nent")
 		for j := 0; j < ne; j++ {
 			n := gen.Pick(t, epool, "ename")
-			if gen.Chance(t, 8, "foreignname") {
+			if Rare(t, 8, "foreignname") {
 				n = gen.Pick(t, entPools[gen.Pick(t, []string{"", "NS", "A::B"}, "fpool")], "fename")
 			}
 			if g.odd("setent") {
@@ -238,7 +251,7 @@ func GenSchema(t *rapid.T, o GenOpts) *Schema {
 		ataken := map[string]bool{}
 		for j := 0; j < na; j++ {
 			n := gen.Pick(t, actionPool, "aname")
-			if gen.Chance(t, 4, "uniact") {
+			if Rare(t, 4, "uniact") {
 				n = gen.UnicodeString(t, 0, 4)
 			}
 			if ataken[n] {
